@@ -61,8 +61,9 @@ def grid(lams, eps=1e-13):
 def tail(kind, mu, q_obs, n_obs, s, b, mu_gen, delta, lo=0.0, hi=10.0, cache=None):
     """(P_lo, P_hi): P(q >= q_obs +- delta | counts ~ Pois(mu_gen*s+b)); the observed count vector
     itself always counts (it reproduces q_obs exactly)."""
-    if q_obs <= 0.0:
-        return 1.0, 1.0  # every statistic value is >= 0
+    # NB q_obs == 0 (observation on the null side of the expectation) is a knife edge: the exact tail is 1,
+    # but an implementation whose statistic carries fit noise of 1e-12 legitimately counts only part of the
+    # toys with q == 0.  The +-delta interval below covers it: P(q >= delta) <= p <= 1.
     lams = [mu_gen * si + bi for si, bi in zip(s, b)]
     plo = phi = 0.0
     for n, p in grid(lams):
